@@ -32,7 +32,7 @@ def stOf? : String → Option St
 
 /-- short name of the yield point a thread is parked at -/
 def point : Pc → String
-  | .tpGet _ => "sg" | .tpRetry _ => "rl" | .tpCas .. => "sc" | .rbCas => "sc"
+  | .tpGet _ => "sg" | .tpRetry _ => "rl" | .tpLoad .. => "ck" | .tpCas .. => "sc" | .rbCas => "sc"
   | .ocGet .. => "sg" | .ocGet2 => "sg" | .coCas => "sc" | .coStore => "rs"
   | .hoCas => "sc" | .hoReset => "pr" | .hoStore => "rs" | .paAdd => "pa" | .plLoad => "pl"
   | .hcCas => "sc" | .hcReset => "pr" | .done => "done"
@@ -466,7 +466,7 @@ def judgeRec (o : OS) (r : Rec) : OS :=
         if (dchanged.any fun p => p.1 = k) ∨ dl = r.clk + (ruleOf o k).1 then
           setOO o k { getOO o k with fresh := true } else o) o
     else o
-  let o := if r.frm = "rl" ∧ r.to = "sc" then
+  let o := if r.frm = "ck" ∧ r.to = "sc" then
       { o with loads := (r.tid, (List.range o.objs.length).map fun k => ((getOO o k).epoch, (getOO o k).fresh))
                         :: o.loads.filter fun p => p.1 ≠ r.tid } else o
   -- listener calls of this step
